@@ -3208,9 +3208,25 @@ impl Block {
             self.transactions.len()
         );
         let mut new_slips_map = std::collections::HashMap::new();
+        let genesis_period = configs.get_consensus_config().unwrap().genesis_period;
         let transactions_valid = self.transactions.iter().all(|tx: &Transaction| -> bool {
             let valid_tx = tx.validate(utxoset, blockchain, validate_against_utxo);
             if !valid_tx {
+                return false;
+            }
+            // validate inputs are inside the retention window
+            //
+            // this block sweeps block (id - genesis_period - 1) : every output of that block
+            // which is still unspent is either rebroadcast by one of our ATR transactions or,
+            // if it cannot pay the rebroadcast fee, collected into total_fees_atr without any
+            // transaction consuming it. that output and everything older has been dealt with
+            // and is unspendable whatever the utxoset still says about it, so only the ATR
+            // transactions themselves may refer to it.
+            if !tx.spends_only_outputs_created_since(self.id.saturating_sub(genesis_period)) {
+                error!(
+                    "ERROR 579129: transaction in block {} spends an output that has left the retention window",
+                    self.id
+                );
                 return false;
             }
             // validate double-spend inputs
